@@ -453,6 +453,17 @@ func reportPrefix(w *World, r *Report, fn *ssa.Function) {
 	m, adv := ms[0], after[0]
 	h, _ := shiftOfPair(fa, adv.X, 0)
 	F := fa.Lin(adv.Y)
+	// F and d may be variables preset to 0 and computed in an earlier branch (`fixed, d := 0, 0; if h > 4 { .. };
+	// if fixed > 0 { shortcut }`): inside the shortcut they are the computed values
+	var guardRes map[*ssa.Phi]ssa.Value
+	if res := fa.GuardResolved(adv.Block()); len(res) > 0 && adv.Block() == m.ins.Block() {
+		guardRes = res
+		F, h = fa.SubstResolved(F, res), fa.SubstResolved(h, res)
+		m.hi, m.d = fa.SubstResolved(m.hi, res), fa.SubstResolved(m.d, res)
+		if p, ok := stripConv(m.dv).(*ssa.Phi); ok && res[p] != nil {
+			m.dv = res[p]
+		}
+	}
 	if !m.hi.Eq(h.Add(linConst(1))) {
 		bad = fmt.Sprintf("the fixed-bits mask at %s ends at bit %s but the level mask sits at bit %s: it must cover exactly the bits up to the level mask (h+1)", w.InstrPos(m.ins), m.hi, h)
 	} else if !h.Sub(F).Eq(m.d.Sub(linConst(1))) {
@@ -475,7 +486,11 @@ func reportPrefix(w *World, r *Report, fn *ssa.Function) {
 				}
 			}
 			nrem++
-			res := fa.Lin(bo).Add(F)
+			boL := fa.Lin(bo)
+			if guardRes != nil && bo.Block() == adv.Block() {
+				boL = fa.SubstResolved(boL, guardRes)
+			}
+			res := boL.Add(F)
 			// what remains must be free of h, of the leading-zero count and of constants: masked index + popcount only
 			var left []string
 			for atom, cf := range res.T {
